@@ -89,7 +89,14 @@ func (vc *VCache) mapLabel(label uint64, mappedVersions distFromRoot) (uint64, b
 	if !found {
 		return label, false
 	}
-	return vm.value(mappedVersions)
+	// The label may only have mappings recorded at versions outside this ancestry (e.g. a
+	// merge done in a sibling version): that is "no mapping here", i.e. the label itself,
+	// not label 0.
+	mapped, present := vm.value(mappedVersions)
+	if !present {
+		return label, false
+	}
+	return mapped, true
 }
 
 // set mapping with expectation that SVMap has been locked for write
